@@ -599,6 +599,40 @@ func (e *Env) call(n *ECall) (tv, error) {
 			return tv{}, err
 		}
 		return tv{t: fmt.Sprintf("(store %s %s %s)", as[0].t, as[1].t, as[2].t), ty: as[0].ty}, nil
+	case "msum":
+		// msum(v, S): sum of v[k] over the finite set S (ghost; axioms below are the defining equations)
+		as, err := args()
+		if err != nil {
+			return tv{}, err
+		}
+		if as[0].ty.Kind != "map" || as[1].ty.Kind != "set" {
+			return tv{}, fmt.Errorf("msum(vals, set) expected")
+		}
+		ks := e.sortOfS(as[0].ty.K)
+		fn := "msum_" + sanitize(ks)
+		if !e.sc.declared[fn] {
+			e.sc.declared[fn] = true
+			e.sc.emit("(declare-fun %s ((Array %s Int) (Array %s Bool)) Int)", fn, ks, ks)
+			e.sc.emit("(declare-fun %s_wit ((Array %s Int) (Array %s Bool)) %s)", fn, ks, ks, ks)
+			e.sc.emit("(declare-fun %s_dif ((Array %s Bool) (Array %s Bool)) %s)", fn, ks, ks, ks)
+			// empty set: a non-zero sum has a member
+			e.sc.emit("(assert (forall ((v (Array %s Int)) (s (Array %s Bool))) (! (or (= (%s v s) 0) (select s (%s_wit v s))) :pattern ((%s v s)))))", ks, ks, fn, fn, fn)
+			// insertion
+			e.sc.emit("(assert (forall ((v (Array %s Int)) (s (Array %s Bool)) (k %s)) (! (=> (not (select s k)) (= (%s v (store s k true)) (+ (%s v s) (select v k)))) :pattern ((%s v (store s k true))))))", ks, ks, ks, fn, fn, fn)
+			// point update of the values
+			e.sc.emit("(assert (forall ((v (Array %s Int)) (s (Array %s Bool)) (k %s) (x Int)) (! (= (%s (store v k x) s) (+ (%s v s) (ite (select s k) (- x (select v k)) 0))) :pattern ((%s (store v k x) s)))))", ks, ks, ks, fn, fn, fn)
+			// extensionality in the set argument (skolemised)
+			e.sc.emit("(assert (forall ((v (Array %s Int)) (s1 (Array %s Bool)) (s2 (Array %s Bool))) (! (or (= (%s v s1) (%s v s2)) (not (= (select s1 (%s_dif s1 s2)) (select s2 (%s_dif s1 s2))))) :pattern ((%s v s1) (%s v s2)))))", ks, ks, ks, fn, fn, fn, fn, fn, fn)
+			// monotone in the set for non-negative values (skolemised)
+			e.sc.emit("(declare-fun %s_sub ((Array %s Bool) (Array %s Bool)) %s)", fn, ks, ks, ks)
+			e.sc.emit("(declare-fun %s_neg ((Array %s Int)) %s)", fn, ks, ks)
+			e.sc.emit("(assert (forall ((v (Array %s Int)) (s1 (Array %s Bool)) (s2 (Array %s Bool))) (! (or (<= (%s v s1) (%s v s2)) (and (select s1 (%s_sub s1 s2)) (not (select s2 (%s_sub s1 s2)))) (< (select v (%s_neg v)) 0)) :pattern ((%s v s1) (%s v s2)))))", ks, ks, ks, fn, fn, fn, fn, fn, fn, fn)
+			// non-negativity and member bound for non-negative values
+			e.sc.emit("(assert (forall ((v (Array %s Int)) (s (Array %s Bool))) (! (or (>= (%s v s) 0) (< (select v (%s_neg v)) 0)) :pattern ((%s v s)))))", ks, ks, fn, fn, fn)
+			e.sc.emit("(assert (forall ((v (Array %s Int)) (s (Array %s Bool)) (k %s)) (! (or (not (select s k)) (<= (select v k) (%s v s)) (< (select v (%s_neg v)) 0)) :pattern ((%s v s) (select s k)))))", ks, ks, ks, fn, fn, fn)
+			e.g.assumptions["ghost axioms for finite sums over map domains (msum: empty set, insertion, point update, set extensionality, monotonicity)"] = true
+		}
+		return tv{t: fmt.Sprintf("(%s %s %s)", fn, as[0].t, as[1].t), ty: stInt}, nil
 	case "fresh":
 		as, err := args()
 		if err != nil {
